@@ -1,11 +1,11 @@
 import Gv.Model.Fmt.Phylip
-import Gv.Proofs.BagInv
+import Gv.Proofs.FmtBagInv
 /-!
 Phylip parser: a successful parse is well formed (helper development for `Props/C03.lean`).
 The do-blocks of the model are inverted by repeated case splitting on the hypothesis.
 -/
 namespace Gv.Proofs.PhylipOutcome
-open Gv Gv.Model Gv.Model.Fmt Gv.Model.Fmt.Phylip Gv.Proofs.BagInv
+open Gv Gv.Model Gv.Model.Fmt Gv.Model.Fmt.Phylip Gv.Proofs.FmtBagInv
 
 theorem header_counts (af : Bool) (s s' : St) (n l : Int) (h : header af s = .ok (.counts n l, s')) :
     1 ≤ n ∧ l ≠ 0 := by
